@@ -33,6 +33,8 @@ type pkg struct {
 }
 
 var fset = token.NewFileSet()
+var onDemandDefs []string
+var onDemandDone = map[string]bool{}
 var imp types.Importer
 
 func loadPkg(dir string) *pkg {
@@ -75,11 +77,23 @@ type ty struct {
 	signed bool
 }
 
+var intModeGlobal bool
+
 func (t ty) lean() string {
 	if t.w == 0 {
 		return "Bool"
 	}
+	if intModeGlobal {
+		return "Int"
+	}
 	return fmt.Sprintf("BitVec %d", t.w)
+}
+
+func wrapName(t ty) string {
+	if t.signed {
+		return fmt.Sprintf("OtterVerif.wrapS %d", t.w)
+	}
+	return fmt.Sprintf("OtterVerif.wrapU %d", t.w)
 }
 
 func goTy(t types.Type, where string) ty {
@@ -120,6 +134,7 @@ type tr struct {
 	locals  map[string]bool   // names bound by let in function mode
 	calls   map[string]string // Go func name -> Lean name (for calls to translated functions)
 	siteMod bool
+	intMode bool // emit Int-level semantics with explicit wrap (arithmetic theorems via omega)
 }
 
 func (t *tr) pos(n ast.Node) string { return t.p.fset.Position(n.Pos()).String() }
@@ -138,6 +153,9 @@ func constLit(v constant.Value, tt ty, where string) string {
 	bi, ok := new(big.Int).SetString(iv.ExactString(), 10)
 	if !ok {
 		fail("%s: bad constant %s", where, v)
+	}
+	if intModeGlobal {
+		return fmt.Sprintf("(%s : Int)", bi.String())
 	}
 	mod := new(big.Int).Lsh(big.NewInt(1), uint(tt.w))
 	bi.Mod(bi, mod)
@@ -206,6 +224,9 @@ func (t *tr) expr(e ast.Expr) (string, ty) {
 		s, tt := t.expr(x.X)
 		switch x.Op {
 		case token.SUB:
+			if intModeGlobal {
+				return "(" + wrapName(tt) + " (-" + s + "))", tt
+			}
 			return "(-" + s + ")", tt
 		case token.XOR:
 			return "(~~~" + s + ")", tt
@@ -237,6 +258,9 @@ func (t *tr) shiftCount(e ast.Expr) string {
 func (t *tr) binary(x *ast.BinaryExpr) (string, ty) {
 	switch x.Op {
 	case token.SHL, token.SHR:
+		if intModeGlobal {
+			fail("%s: shift in Int mode", t.pos(x))
+		}
 		a, ta := t.expr(x.X)
 		n := t.shiftCount(x.Y)
 		if x.Op == token.SHL {
@@ -265,6 +289,12 @@ func (t *tr) binary(x *ast.BinaryExpr) (string, ty) {
 		if ta.w == 0 {
 			fail("%s: arithmetic on bool", t.pos(x))
 		}
+		if intModeGlobal {
+			if x.Op != token.ADD && x.Op != token.SUB && x.Op != token.MUL {
+				fail("%s: bit operation %s in Int mode", t.pos(x), x.Op)
+			}
+			return fmt.Sprintf("(%s (%s %s %s))", wrapName(ta), a, op, b), ta
+		}
 		return fmt.Sprintf("(%s %s %s)", a, op, b), ta
 	}
 	switch x.Op {
@@ -288,6 +318,12 @@ func (t *tr) binary(x *ast.BinaryExpr) (string, ty) {
 	cmp := map[token.Token][2]string{
 		token.LSS: {"BitVec.ult", "BitVec.slt"}, token.LEQ: {"BitVec.ule", "BitVec.sle"},
 	}
+	if intModeGlobal {
+		ops := map[token.Token]string{token.LSS: "<", token.LEQ: "≤", token.GTR: ">", token.GEQ: "≥"}
+		if o, ok := ops[x.Op]; ok {
+			return fmt.Sprintf("(decide (%s %s %s))", a, o, b), ty{0, false}
+		}
+	}
 	if c, ok := cmp[x.Op]; ok {
 		f := c[0]
 		if ta.signed {
@@ -310,6 +346,12 @@ func (t *tr) binary(x *ast.BinaryExpr) (string, ty) {
 }
 
 func convert(s string, from, to ty) string {
+	if intModeGlobal {
+		if from == to {
+			return s
+		}
+		return "(" + wrapName(to) + " " + s + ")"
+	}
 	if from.w == to.w {
 		return s
 	}
@@ -360,6 +402,24 @@ func (t *tr) call(x *ast.CallExpr, tv types.TypeAndValue) (string, ty) {
 		}
 		rt := goTy(tv.Type, t.pos(x))
 		return "(" + ln + " " + strings.Join(args, " ") + ")", rt
+	}
+	// a helper function of the same package: translate it on demand (must itself be in the subset)
+	if id, ok := x.Fun.(*ast.Ident); ok {
+		if fd := findFunc(t.p, id.Name); fd != nil && fd.Recv == nil {
+			ln := "h_" + id.Name
+			if !onDemandDone[t.p.dir+"/"+id.Name] {
+				onDemandDone[t.p.dir+"/"+id.Name] = true
+				onDemandDefs = append(onDemandDefs, transFunc(t.p, id.Name, ln, t.calls))
+			}
+			t.calls[name] = ln
+			var args []string
+			for _, a := range x.Args {
+				s, _ := t.expr(a)
+				args = append(args, s)
+			}
+			rt := goTy(tv.Type, t.pos(x))
+			return "(" + ln + " " + strings.Join(args, " ") + ")", rt
+		}
 	}
 	// method call / unknown call with basic result: free variable in site mode
 	if t.siteMod && len(x.Args) == 0 {
@@ -779,7 +839,9 @@ func main() {
 	s += footer("SketchMix")
 	write(out, "SketchMix", s)
 
-	s = header("Deadline", "OtterVerif.Gen.Xmath")
+	s = ""
+	onDemandDefs = nil
+	intModeGlobal = true
 	sites := callSites(ot, map[string]bool{"SetExpiresAt": true, "CASExpiresAt": true, "SetRefreshableAt": true})
 	var names []string
 	cnt := map[string]int{}
@@ -833,8 +895,9 @@ func main() {
 	if nfilt != 1 {
 		fail("LoadCacheFrom: expected exactly one expiry filter, found %d", nfilt)
 	}
-	s += footer("Deadline")
+	s = header("Deadline", "OtterVerif.Gen.Xmath") + "-- Int-level semantics: every variable ranges over its Go type (int64: [-2^63, 2^63)); wrapS/wrapU make overflow explicit.\n\n" + strings.Join(onDemandDefs, "\n") + "\n" + s + footer("Deadline")
 	write(out, "Deadline", s)
+	intModeGlobal = false
 
 	// ---- node predicates
 	np := loadPkg("internal/generated/node")
